@@ -46,6 +46,7 @@ import (
 
 type c12WireMessage struct {
 	channel *c12WireChannel
+	stat    *c12WireHandlerStat // set on the copy handed to one handler
 	key     []byte
 	payload interface{}
 	typ     string
@@ -57,6 +58,9 @@ func (m *c12WireMessage) SenderPublicKey() []byte                    { return m.
 func (m *c12WireMessage) Payload() interface{} {
 	// every consumer asks for the payload first, once per message
 	m.channel.consumed.Add(1)
+	if m.stat != nil {
+		m.stat.consumed.Add(1)
+	}
 	return m.payload
 }
 func (m *c12WireMessage) Type() string  { return m.typ }
@@ -69,7 +73,10 @@ type c12WireChannel struct {
 	unmarshalers map[string]func() net.TaggedUnmarshaler
 	filter       net.BroadcastChannelFilter
 	handlers     []c12Handler
-	queue        []net.Message
+	stats        []*c12WireHandlerStat // per installed handler
+	queue        []*c12WireMessage
+	// onSend, when set, sees what the node sends (and may refuse it)
+	onSend func(message net.TaggedMarshaler) error
 	seqno        uint64
 
 	queued   int64        // messages put into the handler queue so far
@@ -77,12 +84,26 @@ type c12WireChannel struct {
 }
 
 func (c *c12WireChannel) Name() string { return c.name }
-func (c *c12WireChannel) Send(context.Context, net.TaggedMarshaler, ...net.RetransmissionStrategy) error {
+func (c *c12WireChannel) Send(_ context.Context, message net.TaggedMarshaler, _ ...net.RetransmissionStrategy) error {
+	c.mu.Lock()
+	hook := c.onSend
+	c.mu.Unlock()
+	if hook != nil {
+		return hook(message)
+	}
 	return nil
+}
+
+// c12WireHandlerStat counts, for one installed handler, the messages handed
+// to it and the ones whose payload it has asked for.
+type c12WireHandlerStat struct {
+	delivered atomic.Int64
+	consumed  atomic.Int64
 }
 func (c *c12WireChannel) Recv(ctx context.Context, fn func(net.Message)) {
 	c.mu.Lock()
 	c.handlers = append(c.handlers, c12Handler{ctx, fn})
+	c.stats = append(c.stats, &c12WireHandlerStat{})
 	c.mu.Unlock()
 }
 func (c *c12WireChannel) SetUnmarshaler(unmarshaler func() net.TaggedUnmarshaler) {
@@ -134,14 +155,43 @@ func (c *c12WireChannel) handOver() {
 	queue := c.queue
 	c.queue = nil
 	handlers := append([]c12Handler{}, c.handlers...)
+	stats := append([]*c12WireHandlerStat{}, c.stats...)
 	c.mu.Unlock()
 	for _, m := range queue {
-		for _, h := range handlers {
+		for i, h := range handlers {
 			if h.ctx.Err() == nil {
-				h.fn(m)
+				// every handler gets the same payload object, as on the
+				// real channels
+				handed := *m
+				handed.stat = stats[i]
+				stats[i].delivered.Add(1)
+				h.fn(&handed)
 			}
 		}
 	}
+}
+
+// settled reports whether every installed handler that is still listening
+// has asked for the payload of everything handed to it.
+func (c *c12WireChannel) settled() bool {
+	c.mu.Lock()
+	defer c.mu.Unlock()
+	for i, h := range c.handlers {
+		if h.ctx.Err() == nil && c.stats[i].consumed.Load() < c.stats[i].delivered.Load() {
+			return false
+		}
+	}
+	return true
+}
+
+// handlerContext returns the context of the i-th installed handler.
+func (c *c12WireChannel) handlerContext(i int) context.Context {
+	c.mu.Lock()
+	defer c.mu.Unlock()
+	if i < 0 || i >= len(c.handlers) {
+		return nil
+	}
+	return c.handlers[i].ctx
 }
 
 func (c *c12WireChannel) queuedTotal() int64 {
